@@ -118,7 +118,10 @@ func runHarness(ld *Loaded, fn *ssa.Function, cfg *RunConfig) (h *HarnessRun, e 
 	outs := e.callFunction(st, fn, nil, nil, 0)
 	for k := range e.stats.Stubs {
 		if strings.HasPrefix(k, "override:") {
-			h.UsedOverrides = true
+			h.UsedOverrides = true // counterexamples are then reported without native confirmation
+			if !nativeFaithful[strings.TrimPrefix(k, "override:")] {
+				h.NonFaithful = true // and completed paths are not compared with a native run either
+			}
 		}
 	}
 	for _, o := range outs {
@@ -126,6 +129,16 @@ func runHarness(ld *Loaded, fn *ssa.Function, cfg *RunConfig) (h *HarnessRun, e 
 	}
 	// vacuity: every assert id must have been reached
 	return
+}
+
+// nativeFaithful lists the replaced functions whose real implementation behaves, for what a harness can observe, like
+// the stub: mutexes without contention, the wall-clock stamp, Mac-Roman conversion of the ASCII/e-acute strings the harnesses use. Paths that ran only
+// on these are still compared with a native run (translator validation).
+var nativeFaithful = map[string]bool{
+	"(*sync.Mutex).Lock": true, "(*sync.Mutex).Unlock": true, "(*sync.RWMutex).Lock": true, "(*sync.RWMutex).Unlock": true,
+	"(*sync.RWMutex).RLock": true, "(*sync.RWMutex).RUnlock": true,
+	"github.com/jhalter/mobius/hotline.NewTime":    true,
+	"(*golang.org/x/text/encoding.Decoder).String": true, "(*golang.org/x/text/encoding.Encoder).String": true,
 }
 
 // resolveStubs maps vStub_ names onto the functions they replace.
